@@ -20,7 +20,7 @@ def listing (s : St) : String :=
 def stepLine (d : DS) (line : String) : DS × String :=
   match toks line with
   | ["reset", mb, mf, md, tso, mode] =>
-    match mb.toNat?, mf.toNat?, md.toNat?, parseBool tso, mode.toNat? with
+    match mb.toNat?, mf.toNat?, parseInt md, parseBool tso, mode.toNat? with
     | some mb, some mf, some md, some tso, some mode =>
       ({ cfg := { maxBytes := mb, maxFiles := mf, maxDuration := md, tsOnly := tso, mode := mode }, s := {} }, "reset")
     | _, _, _, _, _ => (d, "bad-op")
